@@ -51,7 +51,21 @@ def r04b(F):
 	vb = sites_call(fu, [IP + 'verify'])
 	ds = call_decisions(fu, vb, 'result')
 	# exemption: no recipient-created secret is expected (keysend without secret / blinded receive)
-	exempt = [(b, f_t) for b, f_t, t_t in switches_on_var(fu, 'has_recipient_created_payment_secret') if f_t is not None]
+	# a switch on a plain bool flag (field of the routing info, not a comparison / call result) whose false edge reaches the act without verify
+	exempt = []
+	exb = Expr(fu)
+	for bi, b in enumerate(fu.blocks):
+		t = b['t']
+		if t[1] == 'switch' and t[2][0] in ('c', 'm'):
+			e = exb.of_operand(t[2])
+			while e[0] in ('ref', 'deref'):
+				e = e[1]
+			is_flag = (e[0] == 'local' and (fu.locals[e[1]].get('ty') or '') == 'bool' and e[1] > fu.argc and not any(d[3][0] in ('bin', 'call', 'un') for d in fu.whole_defs(e[1]))) or (e[0] == 'field' and e[1][0] in ('local', 'field', 'downcast', 'deref'))
+			if not is_flag:
+				continue
+			f_t = [tb for v, tb in t[3] if v == 0]
+			if f_t and fu.path([f_t[0]], acts, removed_blocks=set(vb) | {bi} | loop_heads(fu)) is not None and fu.path([t[4]], vb, removed_blocks={bi} | loop_heads(fu)) is not None:
+				exempt.append((bi, f_t[0]))
 	out += P4_guarded(F, '04.b', fu, acts, ds, True, 'inbound_payment::verify Ok', exempt_edges=exempt)
 	out += P4_fail_blocks(F, '04.b', fu, acts, ds, True, 'inbound_payment::verify Ok', stop_blocks=loop_heads(fu))
 	n_ex = len(exempt)
